@@ -11,3 +11,11 @@ claim("C03",
       "Structural runtime monitor on every reported answer of generated programs that nest free and constrained variables in lists, improper tails and compound fields and post disequalities against hidden variables: variable names, closedness of reported constraints, LResult::constraints()/is_constrained() against the harness's own deep variable walk, and the sharing pattern of reified variables against the reference interpreter. Held on the answers observed; nothing is proved.",
       "Trusted: harness conversion of LTerm to its own term type through CompoundObject::children/type_name; reading of 'constraint on a variable' as operand (key or variable value) of the disequality; pvmon::refsem for sharing.",
       "runtime monitoring: structural invariant monitor over observed answers + reference-model comparison of tuples")
+claim("C01",
+      "Reference-model runtime monitor in lock-step: sequences of unifications run on a real State (State::unify) and on a textbook Robinson unifier; after every step the success bit, the identity of both walked sides, variant-equality with the reference MGU over all variables, and acyclicity of the substitution (own fuel-bounded walker, before any real walk*) are checked; clean sequences are re-run as whole queries against the reference answers. Enumerated over all ordered pairs of small terms under 10 prior bindings, plus hostile cycle-closing and random sequences. Held on the executions observed; nothing is proved.",
+      "Trusted: pvmon::term::Subst (reference unifier), conversion of LTerm to the harness term type via CompoundObject::children/type_name.",
+      "runtime monitoring: lock-step reference-model oracle over enumerated and generated unification sequences")
+claim("C20",
+      "Metamorphic + reference-model runtime monitor: every generated program over Pair/Triple/Named/tuple/Option compounds is run together with its tagged-list twin (a homomorphic encoding with constant heads) and the answers must correspond as multisets of ground-instance sets; both are also compared with the reference interpreter; FD labeling inside compound fields is covered by a dedicated generator; the C03 structural monitor runs on every answer. Held on the executions observed.",
+      "Trusted: the encoding (all structure heads are constant tags, so it is a homomorphism for unification); pvmon::refsem; finite instance universe.",
+      "runtime monitoring: metamorphic twin-program oracle + reference-model comparison over generated programs")
